@@ -116,6 +116,9 @@ class H2Run(AsyncRun):
                     "blen": len(out.get("body", b"") or b""),
                     "retried": bool(elsewhere),
                     "reqok": reqok,
+                    # a head HTTP/2 cannot encode (a TE value other than "trailers"): C03 wants it rejected
+                    # with LocalProtocolError and nothing of it written
+                    "illegal": any(k.lower() == b"te" and v != b"trailers" for k, v in call.headers),
                 }
             )
 
@@ -372,5 +375,7 @@ def encode(run):
     for e in ev:
         if e["e"] == "RET":
             e["r"] = names.get(e["r"], 0)
-    ev.append({"e": "END", "live": sorted(set(live)), "srvblocked": sorted(sid for ci, sid in run.srv_blocked if ci == 0)})
+    # spin: the client kept running for the whole step budget of a SMALL scenario (a few hundred quanta when
+    # it behaves) without any stimulus being applied: it is busy-looping instead of waiting or finishing
+    ev.append({"e": "END", "live": sorted(set(live)), "srvblocked": sorted(sid for ci, sid in run.srv_blocked if ci == 0), "spin": bool(getattr(run, "stuck", False))})
     return {"ev": ev}
